@@ -1,5 +1,4 @@
-import SciVerif.Drive.Util
+import SciVerif.Drive.C04
 open Lean SciVerif.Drive
 
-/-- C04 model driver: not built yet. -/
-def main : IO Unit := serve (fun _ => throw "C04: no model yet")
+def main : IO Unit := serve SciVerif.C04.Drive.handle
